@@ -537,6 +537,9 @@ func (s *e2eSite) lookup(url string) resource {
 	}
 	res.status = 200
 	n := r.Intn(6)
+	if s.seed%2 == 0 && r.Chance(40) {
+		n = 6 + r.Intn(10) // link-rich page: more outlinks than a stage channel buffers
+	}
 	for i := 0; i < n; i++ {
 		res.links = append(res.links, s.link(r, host))
 	}
